@@ -23,7 +23,7 @@ model returns the interpretation of the same items), the C06 lemmas at the value
 
 PROPERTY THEOREMS: C01_e2e_actual, C01_e2e_roundtrip_partial, C01_e2e_reencode_partial, C01_e2e_retained,
 C01_e2e_dec_output_normal, C01_e2e_reencode, C01_e2e_reencode_normal, C01_e2e_full_fails_arr, C01_e2e_full_fails_zero,
-C01_e2e_full_fails_fffd, C01_e2e_reencode_undersized_roundtrip, C01_e2e_reencode_fails_pieces, C01_e2e_reencode_fails_f64dev,
+C01_e2e_full_fails_fffd, C01_e2e_known_array_is_array, C01_e2e_reencode_undersized_roundtrip, C01_e2e_reencode_fails_pieces, C01_e2e_reencode_fails_f64dev,
 C01_e2e_reencode_boolarr_roundtrip, C01_e2e_value_independent_of_byte_order, C01_e2e_roundtrip_strict_partial,
 C01_e2e_full_fails_emptystr, C01_e2e_norm_bool_witness, C01_e2e_actual_exact, C01_e2e_roundtrip_exact_partial
 
@@ -307,6 +307,16 @@ theorem C01_e2e_dec_output_normal (c : Cfg) (o : Fit.DecApi.Opts) (input : List 
   obtain ⟨d1, d2, d3, d4, d5⟩ := retained_good o.fac hfac hkeys c.w.arch c.vo.omitInvalid _ {} hgood hk
   refine ⟨by rw [inDomain_eq, hfac, d1]; rfl, ?_, d5⟩
   simp only [noKF, kfZero, kfArr, kfFFFD, d2, d3, d4, Bool.not_false, Bool.and_self]
+
+/-- **THE DECODER RETURNS THE ARRAY SHAPE ITS FACTORY PROMISES** (what the repair of KF-C01-undersized established). For
+ARBITRARY input bytes (component expansion off, no listeners, a factory that reads field 253 as a plain uint32 where it knows
+it): in every message of every sequence the `Next` / `Decode` loop returns, a field the factory knows as an ARRAY field holds
+an array value — also when its definition gave it fewer bytes than one element of its base type (before the repair:
+the scalar `convertBytesToValue` assembled). The former class `kfUndersized` (`known && array && !isSlice value`) is empty. -/
+theorem C01_e2e_known_array_is_array (o : Fit.DecApi.Opts) (input : List Nat) (hb : ∀ b ∈ input, b < 256) (ho : PlainOpts o)
+    (hfac : facOKB o.fac = true) :
+    ∀ f ∈ (decodeChain o input).1, ∀ m ∈ f.msgs, ∀ d ∈ m.fields, d.known = true → d.array = true → isSlice d.value = true :=
+  fun f hf m hm d hd => ((decodeChain_good o input hb ho hfac f hf m hm).2.1 d hd).shape
 
 /-- **RE-ENCODING DECODER OUTPUT: THE LAST SENTENCE OF THE PROPERTY.** For ARBITRARY input bytes: whenever the encoder
 (any option combination, real validator model) accepts the sequences the decoder returned for them (`hdec`, `henc`), then —
@@ -595,6 +605,11 @@ example : ((decodeChain wOpts inF64).1.head!).msgs.map proj ==
     kfF64Dev cfgArith.vo {} ((decodeChain wOpts inF64).1.head!).msgs = true ∧
     ((encodeChain cfgArith (backFiles (decodeChain wOpts inF64).1) 0).1.head!.map literal).getLast? ==
       some ⟨20, [⟨3, 2, .uint8 70⟩], [⟨1, 0, .float64 0x4008000000000000⟩]⟩ := by decide +kernel
+
+/-- non-vacuity of `C01_e2e_known_array_is_array`: the former witness — hrv.time, a known array field, one byte — -/
+example : (∀ b ∈ inUndersized, b < 256) ∧ facOKB wOpts.fac = true ∧
+    ((decodeChain wOpts inUndersized).1.map fun f => f.msgs.map fun m => m.fields.map fun d => (d.known, d.array, d.value)) =
+      [[[(true, true, .sliceUint16 [7])]]] := by decide +kernel
 
 /-- the witnesses lie in the classes `C01_e2e_reencode` excludes, one each, and in no other; the former witness of
 KF-C01-undersized lies in none -/
